@@ -1907,11 +1907,8 @@ class SubclassValue(Value):
                     self_tobj = self.typ.get_type_object(ctx)
                     return self_tobj.can_assign(self, TypedValue(other.val), ctx)
                 elif isinstance(self.typ, TypeVarValue):
-                    return {
-                        self.typ.typevar: [
-                            LowerBound(self.typ.typevar, TypedValue(other.val))
-                        ]
-                    }
+                    # Goes through the declared bound / constraints too.
+                    return self.typ.can_assign(TypedValue(other.val), ctx)
         elif isinstance(other, TypedValue):
             if other.typ is type:
                 return {}
